@@ -451,12 +451,13 @@ func (x *ctx) setup() error {
 			})
 		case s.Outcome == "reset":
 			rg.setBehave(func(n int) action {
-				switch n % 3 {
-				case 1:
+				switch {
+				case n%6 == 5:
 					return action{Kind: "eof"}
-				case 0:
-					// the protocol's own refusal: the single zero byte a server sends for equipment it does not know
-					return action{Kind: "reply", Reply: []byte{1, 0, 0}, CloseAfter: -1, Tag: -1} // length prefix 1, body 0
+				case n%3 != 2:
+					// the protocol's own refusal: the single zero byte (after the two byte length prefix) a
+					// server sends for equipment it does not know
+					return action{Kind: "reply", Reply: []byte{1, 0, 0}, CloseAfter: -1, Tag: -1}
 				}
 				return action{Kind: "reset"}
 			})
@@ -1196,6 +1197,20 @@ func outcomeCase(g int, seed int64) *caseCfg {
 		cc.Servers = append(cc.Servers, srvCfg{Outcome: "success", Spare: true})
 	}
 	cc.Liveness = g%4 == 0
+	// the uniform "every server refuses/resets" vectors: no banned server, no spare that would
+	// answer, and the client's own background round is always awaited afterwards (whatever
+	// refusals servers produce, a later round must dial again)
+	uniform := !allBanned
+	for _, o := range v {
+		uniform = uniform && o == "reset"
+	}
+	if uniform {
+		cc.Servers = cc.Servers[:n]
+		for i := range cc.Servers {
+			cc.Servers[i].Banned = false
+		}
+		cc.Liveness = true
+	}
 	return cc
 }
 
